@@ -392,7 +392,7 @@ def discharge(obligations, timeout_s=10, pool=None):
             pool.join()
     # second, patient pass for whatever stayed undecided: few processes (the first pass may have been starved by other work
     # on the machine), four times the budget, a long MBQI stage.  Verdicts `proved` / `refuted` of the first pass are final.
-    again = [i for i, (r, t) in enumerate(zip(res, tasks)) if r['status'] == 'unknown' and not t[5]]
+    again = [i for i, (r, t) in enumerate(zip(res, tasks)) if r['status'] == 'unknown' and not t[5] and not getattr(obligations[i], 'known_short', False)]
     if again and len(again) <= 12 and not os.environ.get('PYVC_NO_RETRY'):
         # (many undecided obligations at once mean a changed tree with false obligations, not a starved solver: no second pass)
         tasks2 = [tasks[i][:4] + (min(max(tasks[i][4] * 3, 45000), 120000),) + tasks[i][5:7] + (True,) + tasks[i][8:9] for i in again]
